@@ -284,6 +284,10 @@ def write_replay(res, kind, payload):
 
 def finish(res, proof, wall_s, level_note):
     """verdict logic of DESIGN 2.4; writes evidence; returns the exit code"""
+    if os.path.isdir(REPLAYS):
+        for f in os.listdir(REPLAYS):
+            if f.startswith(res.prop + '-'):
+                os.unlink(os.path.join(REPLAYS, f))
     findings, fixed = load_known(res.prop)
     known_hit, new_viol = [], []
     for v in res.violations:
